@@ -680,7 +680,43 @@ Proof.
   intros Httl Htick Hops. unfold crun_all. apply crun_from_inv; auto. simpl. apply heap_inv_init.
 Qed.
 
+(* (T2)+(T3) for a query made in any reachable state (any source, masked or keyed, with or
+   without mutations) *)
+Theorem C10_reachable masked ttl tick t0 evs ops src a b rv s' out log :
+  ttl > 0 -> tick >= 0 -> Forall op_ok ops -> NEG_INF < a -> a < b -> b < POS_INF ->
+  let s := r_state (crun_all masked ttl tick t0 evs ops) in
+  cquery masked ttl tick src s a b rv = (s', out, log) ->
+  exists h1 cv1 sk1,
+    evict_go (now s) (heap s) (cover s) (sink s) = (h1, cv1, sk1) /\
+    (* freshness *)
+    (forall c, In c (cover s) -> (In c cv1 <-> now s < cv_t c + ttl)) /\
+    (* economy *)
+    log = log_of tick (now s + tick) (gaps_of cv1 a b) /\
+    (forall t' gs ge, In (t', gs, ge) log ->
+       a <= gs /\ gs < ge /\ ge <= b /\ now s + tick <= t' /\
+       (forall c, In c cv1 -> cv_e c <= gs \/ ge <= cv_s c) /\
+       (gs = a \/ exists c, In c cv1 /\ cv_e c = gs) /\
+       (ge = b \/ exists c, In c cv1 /\ cv_s c = ge)) /\
+    log_sep log /\
+    (forall x, a <= x < b ->
+       (exists c, In c cv1 /\ cv_s c <= x < cv_e c) \/
+       (exists t' gs ge, In (t', gs, ge) log /\ gs <= x < ge)) /\
+    (* afterwards *)
+    heap_inv ttl s' /\
+    (forall x, a <= x < b -> exists c, In c (cover s') /\ cv_s c <= x < cv_e c) /\
+    (forall c, In c (cover s') -> now s < cv_t c + ttl).
+Proof.
+  intros Httl Htick Hops Ha Hab Hb s Hq.
+  pose proof (heap_inv_reachable masked ttl tick t0 evs ops Httl Htick Hops) as H. fold s in H.
+  destruct (economy _ _ _ _ _ _ _ _ _ _ _ Httl Htick Ha Hab Hb H Hq)
+    as (h1 & cv1 & sk1 & He & Hlg & Hl & Hsep & Hcov & H' & _ & Hwin & Hfr & _).
+  exists h1, cv1, sk1. destruct (fresh_covers_only ttl (now s) s h1 cv1 sk1 H He) as (_ & _ & Hiff).
+  split; [exact He|]. split; [exact Hiff|]. split; [exact Hlg|]. split; [exact Hl|].
+  split; [exact Hsep|]. split; [exact Hcov|]. split; [exact H'|]. split; [exact Hwin|exact Hfr].
+Qed.
+
 Print Assumptions heap_inv_reachable.
 Print Assumptions fresh_covers_only.
 Print Assumptions economy.
 Print Assumptions no_refetch_while_fresh.
+Print Assumptions C10_reachable.
